@@ -1,0 +1,26 @@
+//go:build verif
+
+package common
+
+// VerifECIRegistry returns copies of the two ECI lookup maps (monitor use only).
+func VerifECIRegistry() (byValue map[int]*CharacterSetECI, byName map[string]*CharacterSetECI) {
+	byValue = make(map[int]*CharacterSetECI, len(valueToECI))
+	for k, v := range valueToECI {
+		byValue[k] = v
+	}
+	byName = make(map[string]*CharacterSetECI, len(nameToECI))
+	for k, v := range nameToECI {
+		byName[k] = v
+	}
+	return
+}
+
+// VerifValues returns the registered ECI values of the entry.
+func (this *CharacterSetECI) VerifValues() []int {
+	return append([]int{}, this.values...)
+}
+
+// VerifOtherNames returns the alias names of the entry.
+func (this *CharacterSetECI) VerifOtherNames() []string {
+	return append([]string{}, this.otherEncodingNames...)
+}
